@@ -32,6 +32,9 @@ def run(ctx):
                                nontrivial=nontrivial, dedupe_key=lambda s: json.dumps([s["apps"], s["early"]], sort_keys=True),
                                post_gen=lambda scns: [s for s in scns], chunk=4000)
     ctx.extra["requests"] = sum(len(o["scn"]["reqs"]) for o in obs)
+    # the composition: the same property on end-to-end runs of the real session loop, validated event by event against Server.tla
+    import props.server as server
+    server.composition(ctx, {"dispatch"})
     return finish(ctx, rule=RULE, exhaustive=True,
                   assumptions=["routes with at most two path parameters (documented limit of the framework)",
                                "percent-escapes in paths are not generated here (C07 covers decoding of params)",
@@ -41,4 +44,11 @@ def run(ctx):
                            "harness/src/util.rs parse_response"])
 
 def replay(ctx, path):
+    doc = json.load(open(path))
+    if isinstance(doc.get("scenario"), dict) and doc["scenario"].get("composition"):
+        import props.server as server
+        rc = server.replay_composition(ctx, doc)
+        if rc:
+            print("VIOLATION property=%s replay=%s" % (ctx.prop, path))
+        return rc
     return standard_replay(ctx, path, sub="router", trace=TRACE)
